@@ -42,7 +42,8 @@ def runCg (j : Json) : Option Json := do
   let x0 ← match x0l with
     | none => some none
     | some l => (RVec.ofList? n l).map some
-  let c ← parseCfg j n
+  let sz := (fNat? j "size").getD n      -- `size(j)`: number of (possibly complex) entries
+  let c ← parseCfg j sz
   if c.nreset == 0 then none else
   let mat := RVec.matVec m
   let e : Json := match cgEager c RVec.dot mat jv x0 with
